@@ -15,7 +15,7 @@ from vlib.compare import first_value_diff
 from vlib.runner import Outcome, Report, Reject
 from gen import messages as gmsg, pool as gpool
 from gen.values import GenSource
-from refbufr import frame, codec, tables as rtables, tree as rtree, IllFormed, Unsupported
+from refbufr import frame, codec, tables as rtables, tree as rtree, walker as rwalker, IllFormed, Unsupported
 
 PID = 'C20'
 DEF_TEMPLATE = [103000, 31001, 1, 2, 3, 101000, 31001, 300004, 105000, 31001, 300003, 205064, 101000, 31001, 30]
@@ -74,9 +74,10 @@ class TableDef(object):
                         [tuple(x) for x in d['a']], d.get('style', 0))
 
 
-def overlay(base_mv, defs):
-    """reference tables: standard tables of that version with the definitions of all messages so far on top"""
-    wmo, loc = rtables.select(0, 0, 0, base_mv, 0)
+def overlay(base_mv, defs, local=None):
+    """reference tables: standard tables of that version (and the local tables the message names, if bundled) with the
+    definitions of all messages so far on top"""
+    wmo, loc = rtables.select(0, local[0], local[1], base_mv, local[2]) if local else rtables.select(0, 0, 0, base_mv, 0)
     eb, ed = {}, {}
     for td in defs:
         for (id_, name, unit, scale, ref, nbits) in td.b:
@@ -87,23 +88,25 @@ def overlay(base_mv, defs):
 
 
 class DataMsg(object):
-    def __init__(self, after, mv, edition, ids, compressed, nsub, raws):
-        """after: number of definition messages in front of it; raws: {'subsets': ...} or {'columns': ...}"""
+    def __init__(self, after, mv, edition, ids, compressed, nsub, raws, local=None):
+        """after: number of definition messages in front of it; raws: {'subsets': ...} or {'columns': ...};
+        local: (centre, sub-centre, local table version) named in section 1, or None"""
         self.after, self.mv, self.edition, self.ids, self.compressed, self.nsub, self.raws = after, mv, edition, ids, compressed, nsub, raws
+        self.local = tuple(local) if local else None
 
     def to_json(self):
         def enc(x):
             return {'hex': x.hex()} if isinstance(x, (bytes, bytearray)) else x
         r = {k: [[enc(v) for v in row] for row in rows] for k, rows in self.raws.items()}
         return {'after': self.after, 'mv': self.mv, 'edition': self.edition, 'ids': self.ids, 'compressed': self.compressed,
-                'nsub': self.nsub, 'raws': r}
+                'nsub': self.nsub, 'raws': r, 'local': list(self.local) if self.local else None}
 
     @staticmethod
     def from_json(d):
         def dec(x):
             return bytes.fromhex(x['hex']) if isinstance(x, dict) else x
         r = {k: [[dec(v) for v in row] for row in rows] for k, rows in d['raws'].items()}
-        return DataMsg(d['after'], d['mv'], d['edition'], list(d['ids']), d['compressed'], d['nsub'], r)
+        return DataMsg(d['after'], d['mv'], d['edition'], list(d['ids']), d['compressed'], d['nsub'], r, d.get('local'))
 
 
 def walk_data(dm, tables, source=None):
@@ -113,6 +116,10 @@ def walk_data(dm, tables, source=None):
     meta['master_table_version'] = dm.mv
     meta['n_subsets'] = dm.nsub
     meta['is_compressed'] = dm.compressed
+    if dm.local:
+        meta['originating_centre'], meta['originating_subcentre'], meta['local_table_version'] = dm.local
+        if dm.edition == 2:
+            meta['originating_subcentre'] = 0
     if source is not None:
         dec = codec.walk_all(tree, tables, dm.nsub, dm.compressed, lambda i: source)
     elif dm.compressed:
@@ -232,6 +239,7 @@ def gen_stream(ch):
     n_defs = ch.weighted([(5, 1), (3, 2), (1, 3)])
     defs = []
     elems_all, seqs_all = [], []
+    pending, forced_next, used_outer = {}, [], set()       # forward references between definition messages
     for k in range(n_defs):
         only_redefine = bool(k) and ch.bool(1, 2)
         b = [] if only_redefine else gen_elements(ch, used, ch.int(1, 5))
@@ -251,6 +259,21 @@ def gen_stream(ch):
             if cand:
                 sid = ch.choice(cand)
                 d.append((sid, 'SEQ REDEFINED', [ch.choice(elems_all) for _ in range(ch.int(1, 3))]))
+        # sequences that an earlier definition message used before they were defined are defined now
+        for f_id in forced_next:
+            d.append((f_id, 'SEQ DEFINED AFTER ITS USER', [ch.choice(elems_all) for _ in range(ch.int(1, 2))]))
+        forced_next = []
+        if k < n_defs - 1 and elems_all and ch.bool(1, 3):
+            # a sequence whose member sequence is only defined by the next definition message
+            for _try in range(20):
+                outer = 300000 + ch.int(48, 63) * 1000 + ch.int(1, 255)
+                f_id = 300000 + ch.int(48, 63) * 1000 + ch.int(1, 255)
+                if outer not in used and f_id not in used and outer != f_id:
+                    break
+            used.update([outer, f_id])
+            d.append((outer, 'SEQ USING A LATER ONE', [ch.choice(elems_all), f_id]))
+            pending[outer] = f_id
+            forced_next.append(f_id)
         seqs_all += [x[0] for x in d if x[0] not in seqs_all]
         a = [('0%02d' % ch.int(0, 99), 'DATA CATEGORY', '')] if ch.bool(1, 3) else []
         defs.append(TableDef(b, d, ch.choice([3, 4]), ch.choice([33, 25, 40]), a, ch.int(0, 7)))
@@ -263,12 +286,19 @@ def gen_stream(ch):
         for _ in range(n_data):
             tabs = overlay(33, defs[:k + 1])
             known_e = sorted(i for td in defs[:k + 1] for i in [x[0] for x in td.b])
-            known_s = sorted(set(i for td in defs[:k + 1] for i in [x[0] for x in td.d]))
+            known_s = set(i for td in defs[:k + 1] for i in [x[0] for x in td.d])
+            # a sequence whose member is not defined yet cannot be used by a data message at this point
+            known_s = sorted(s_ for s_ in known_s if pending.get(s_) is None or pending[s_] in known_s)
             ids = []
-            if k and datas and ch.bool(1, 2):
+            ready = [o for o in sorted(pending) if pending[o] in known_s and o not in used_outer]
+            if ready:
+                # the first data message after the later definition uses the sequence that had to wait for it
+                used_outer.add(ready[0])
+                ids = [ready[0], ch.choice(known_e)]
+            elif k and datas and ch.bool(1, 2):
                 # the template of an earlier data message again, now under the newer definitions
                 ids = list(ch.choice(datas).ids)
-            for _ in range(0 if ids else ch.int(1, 5)):
+            for _ in range(ch.int(0, 2) if ids else ch.int(1, 5)):
                 what = ch.weighted([(3, 'e'), (3, 's'), (1, 'std'), (1, 'rep')])
                 if what == 's' and known_s:
                     s = ch.choice(known_s)
@@ -288,11 +318,13 @@ def gen_stream(ch):
             mv = ch.choice([33, 25, 40])
             compressed = ch.bool(1, 3)
             nsub = ch.int(1, 3)
-            dm = DataMsg(k + 1, mv, ch.choice([3, 4]), ids, compressed, nsub, None)
+            # sometimes the data message names bundled local tables: the definitions govern it all the same
+            local = ch.choice([(98, 0, 1), (98, 0, 101), (98, 0, 3)]) if ch.bool(1, 5) else None
+            dm = DataMsg(k + 1, mv, ch.choice([3, 4]), ids, compressed, nsub, None, local)
             try:
-                tabs = overlay(mv, defs[:k + 1])
+                tabs = overlay(mv, defs[:k + 1], local)
                 dec, b = walk_data(dm, tabs, GenSource(ch))
-            except (IllFormed, Unsupported, RecursionError) as e:
+            except (IllFormed, Unsupported, RecursionError, rwalker.UnknownDescriptor) as e:
                 raise Reject('data message rejected by the reference: %s' % str(e)[:50])
             if dec.ambiguous():
                 raise Reject('ambiguous construct')
@@ -313,7 +345,7 @@ def build_stream(sc):
             expected.append(('def', c.values(), c.labels(), c.bytes))
         else:
             dm = sc.datas[k]
-            tabs = overlay(dm.mv, sc.defs[:dm.after])
+            tabs = overlay(dm.mv, sc.defs[:dm.after], dm.local)
             dec, b = walk_data(dm, tabs)
             parts.append(b)
             expected.append(('data', [dec.values_of(i) for i in range(dm.nsub)], [dec.labels_of(i) for i in range(dm.nsub)], b))
@@ -373,6 +405,14 @@ def check_stream(sc):
         seen_t.setdefault(t, dm.after)
     if any(dm.compressed for dm in sc.datas):
         cls.add('compressed_data')
+    if any(dm.local for dm in sc.datas):
+        cls.add('data_message_names_local_tables')
+    defined = set()
+    for td in sc.defs:
+        here = set(x[0] for x in td.d)
+        if any(m // 100000 == 3 and m >= 348000 and m not in defined and m not in here for x in td.d for m in x[2]):
+            cls.add('sequence_defined_after_its_user')
+        defined |= here
     out.classes = sorted(cls)
     out.nontrivial = bool(cls & {'nonzero_scale_or_reference', 'sequence_with_replication'})
     for cache_max in (None, 4):
